@@ -2680,6 +2680,13 @@ impl SctpInner {
         if buf.remaining() < 12 {
             return Ok(());
         }
+        // DATA from the peer while we still wait for its COOKIE-ACK (lost or
+        // overtaken): the peer has accepted our cookie, so complete the setup
+        // first. Otherwise messages would reach channels that have not yet
+        // announced Open.
+        if matches!(&*self.t1_chunk.lock(), Some((CT_COOKIE_ECHO, _, _))) {
+            self.handle_cookie_ack(Bytes::new()).await?;
+        }
         let tsn = buf.get_u32();
 
         // Deduplication and Ordering Check
